@@ -61,74 +61,7 @@ func checkC14(c *Ctx) {
 	c.rwHeaderTypestate(w)
 
 	// 1. request bound
-	if len(w.Creators) == 0 {
-		c.Missing("request-bound", "plugins.newSizeLimitMiddleware/handler")
-	}
-	for _, cr := range w.Creators {
-		sp := c.rwSpec(w)
-		sp.Event = wrapEvent(sp.Event, func(in ssa.Instruction, fr *Frame) string {
-			if k, st := storeKey(in); k == "http.Request.Body" {
-				return "store Request.Body := " + p.Desc(st.Val, fr)
-			}
-			return ""
-		})
-		c.traceRule("request-bound", w.Key+"@"+p.FuncKey(cr), cr, sp,
-			"the handler is reached only with ContentLength − limit ≤ 0 and a MaxBytesReader(limit) body; the over-limit edge answers 413 and stops",
-			func(t *Trace) string {
-				r, ri, ok := c.findRel(t, "http.Request.ContentLength", "max_request_body", 0, -1)
-				if !ok {
-					return "declared Content-Length is never compared with max_request_body"
-				}
-				over := r.Lo == 1 && r.Hi == posInf
-				if !over && !(r.Lo == negInf && r.Hi == 0) {
-					return "request limit test is not ContentLength > max_request_body: " + r.String()
-				}
-				ni := t.Index("next", 0)
-				if over {
-					if ni >= 0 {
-						return "over-limit request still reaches the next handler"
-					}
-					if !t.Has("status:413") {
-						return "over-limit request is not answered 413"
-					}
-					return ""
-				}
-				if ni < 0 {
-					if t.Has("next-unwrapped") {
-						return "next handler invoked without the limiting response writer"
-					}
-					return "within-limit request does not reach the next handler"
-				}
-				if ni < ri {
-					return "next handler runs before the length check"
-				}
-				mb := -1
-				for i, it := range t.Items[:ni] {
-					if strings.HasPrefix(it.Label, "max-bytes-reader(") {
-						if !strings.Contains(it.Label, "max_request_body") {
-							return "MaxBytesReader is not bounded by max_request_body: " + it.Label
-						}
-						mb = i
-					}
-				}
-				if mb < 0 {
-					return "request body is not wrapped in http.MaxBytesReader before the handler runs (chunked uploads are unbounded)"
-				}
-				bodyOK := false
-				for _, it := range t.Items[mb:ni] {
-					if strings.HasPrefix(it.Label, "store Request.Body := call:net/http.MaxBytesReader(") {
-						bodyOK = true
-					}
-				}
-				if !bodyOK {
-					return "the MaxBytesReader is not installed as r.Body"
-				}
-				if t.Has("status:413") {
-					return "within-limit request answered 413"
-				}
-				return ""
-			})
-	}
+	c.requestBound(w)
 
 	// 2. response budget
 	wr := w.Methods["Write"]
@@ -408,6 +341,7 @@ func checkC15(c *Ctx) {
 	c.Clause("Hijack/Flush forwarded; level range −1..9; numeric options accept int/int64/float64")
 	c.Clause("an empty body (204, 304, reply to HEAD) is never compressed, whatever min_size says; above the buffering cap everything buffered and everything that follows is passed through, in order, after the recorded status")
 	c.Clause("the recorded status is delivered on every completion path and a later status replaces an earlier unsent one; the buffer starts empty per request; Write copies the caller's bytes")
+	c.Clause("the gzip writer's header fields (Name, Comment, …) are never set: compress/gzip refuses non-Latin-1 header strings with the first Write, after the status has gone out")
 	c.NotDecided("that gzip output inflates to the input (compress/gzip trusted); incompressible payloads; q-values in Accept-Encoding")
 
 	w := c.wrapperNamed("plugins.gzipResponseWriter")
@@ -415,6 +349,7 @@ func checkC15(c *Ctx) {
 		c.Missing("wrapper-classified", "plugins.gzipResponseWriter")
 		return
 	}
+	c.gzipHeaderUntouched()
 	c.rwForwarding([]*Wrapper{w}, true, true, nil)
 	c.rwHeaderTypestate(w)
 	if len(w.Creators) == 0 {
@@ -777,5 +712,79 @@ func (c *Ctx) bufferStartsEmpty(w *Wrapper) {
 		} else {
 			c.Fail("buffer-starts-empty", ckey, p.Pos(cr.Pos()), bad[0], bad...)
 		}
+	}
+}
+
+// requestBound: C14 clause 1 (also a clause of C17: size_limit's rejection applies to every request —
+// no method, header or framing exempts one from the length test and the MaxBytesReader).
+func (c *Ctx) requestBound(w *Wrapper) {
+	p := c.P
+	if len(w.Creators) == 0 {
+		c.Missing("request-bound", "plugins.newSizeLimitMiddleware/handler")
+	}
+	for _, cr := range w.Creators {
+		sp := c.rwSpec(w)
+		sp.Event = wrapEvent(sp.Event, func(in ssa.Instruction, fr *Frame) string {
+			if k, st := storeKey(in); k == "http.Request.Body" {
+				return "store Request.Body := " + p.Desc(st.Val, fr)
+			}
+			return ""
+		})
+		c.traceRule("request-bound", w.Key+"@"+p.FuncKey(cr), cr, sp,
+			"the handler is reached only with ContentLength − limit ≤ 0 and a MaxBytesReader(limit) body; the over-limit edge answers 413 and stops",
+			func(t *Trace) string {
+				r, ri, ok := c.findRel(t, "http.Request.ContentLength", "max_request_body", 0, -1)
+				if !ok {
+					return "declared Content-Length is never compared with max_request_body"
+				}
+				over := r.Lo == 1 && r.Hi == posInf
+				if !over && !(r.Lo == negInf && r.Hi == 0) {
+					return "request limit test is not ContentLength > max_request_body: " + r.String()
+				}
+				ni := t.Index("next", 0)
+				if over {
+					if ni >= 0 {
+						return "over-limit request still reaches the next handler"
+					}
+					if !t.Has("status:413") {
+						return "over-limit request is not answered 413"
+					}
+					return ""
+				}
+				if ni < 0 {
+					if t.Has("next-unwrapped") {
+						return "next handler invoked without the limiting response writer"
+					}
+					return "within-limit request does not reach the next handler"
+				}
+				if ni < ri {
+					return "next handler runs before the length check"
+				}
+				mb := -1
+				for i, it := range t.Items[:ni] {
+					if strings.HasPrefix(it.Label, "max-bytes-reader(") {
+						if !strings.Contains(it.Label, "max_request_body") {
+							return "MaxBytesReader is not bounded by max_request_body: " + it.Label
+						}
+						mb = i
+					}
+				}
+				if mb < 0 {
+					return "request body is not wrapped in http.MaxBytesReader before the handler runs (chunked uploads are unbounded)"
+				}
+				bodyOK := false
+				for _, it := range t.Items[mb:ni] {
+					if strings.HasPrefix(it.Label, "store Request.Body := call:net/http.MaxBytesReader(") {
+						bodyOK = true
+					}
+				}
+				if !bodyOK {
+					return "the MaxBytesReader is not installed as r.Body"
+				}
+				if t.Has("status:413") {
+					return "within-limit request answered 413"
+				}
+				return ""
+			})
 	}
 }
